@@ -16,7 +16,7 @@ func (fc *FCtx) execBlock(stmts []ast.Stmt, st *State) *Flow {
 	own := len(fc.frames) == 1 && fc.C != nil && (len(fc.C.Asserts) > 0 || len(fc.C.NamedAsserts) > 0) && len(stmts) > 0
 	top := own && len(fc.FI.Body().List) > 0 && stmts[0] == fc.FI.Body().List[0]
 	if fc.seenDef == nil {
-		fc.seenDef = map[string]bool{}
+		fc.seenDef = map[string]int{}
 	}
 	if fc.anchored == nil {
 		fc.anchored = map[string]bool{}
@@ -24,6 +24,7 @@ func (fc *FCtx) execBlock(stmts []ast.Stmt, st *State) *Flow {
 	checkAsserts := func(cs []*Clause, label string, pos token.Pos) {
 		for k, a := range cs {
 			env := fc.newEnv(cur, fc.entry, pos)
+			env.specials = fc.curSpecials
 			t := fc.specBool(a.Expr, env)
 			fc.obligeNamed(cur, fmt.Sprintf("assert#%s.%d", label, k), "assert", t, "assert "+label+": "+a.Src, pos)
 			cur.assume(t)
@@ -42,10 +43,10 @@ func (fc *FCtx) execBlock(stmts []ast.Stmt, st *State) *Flow {
 			// of the function's own body) that defines or assigns the name
 			defs = definedNames(s)
 			for _, d := range defs {
-				if !fc.seenDef[d] {
-					if cs := fc.C.NamedAsserts["before:"+d]; len(cs) > 0 {
-						fc.anchored["before:"+d] = true
-						checkAsserts(cs, "before-"+d, s.Pos())
+				for _, key := range anchorKeys("before", d, fc.seenDef[d]+1) {
+					if cs := fc.C.NamedAsserts[key]; len(cs) > 0 {
+						fc.anchored[key] = true
+						checkAsserts(cs, strings.Replace(key, ":", "-", 1), s.Pos())
 					}
 				}
 			}
@@ -55,11 +56,11 @@ func (fc *FCtx) execBlock(stmts []ast.Stmt, st *State) *Flow {
 		cur = fc.merge(f.normal)
 		if own {
 			for _, d := range defs {
-				if !fc.seenDef[d] {
-					fc.seenDef[d] = true
-					if cs := fc.C.NamedAsserts["after:"+d]; len(cs) > 0 && cur != nil {
-						fc.anchored["after:"+d] = true
-						checkAsserts(cs, "after-"+d, s.End())
+				fc.seenDef[d]++
+				for _, key := range anchorKeys("after", d, fc.seenDef[d]) {
+					if cs := fc.C.NamedAsserts[key]; len(cs) > 0 && cur != nil {
+						fc.anchored[key] = true
+						checkAsserts(cs, strings.Replace(key, ":", "-", 1), s.End())
 					}
 				}
 			}
@@ -69,6 +70,15 @@ func (fc *FCtx) execBlock(stmts []ast.Stmt, st *State) *Flow {
 		out.normal = []*State{cur}
 	}
 	return out
+}
+
+// anchorKeys: the contract keys that address the n-th (1-based, in execution order) definition/assignment of a
+// name: "after:x" is the first one, "after:x#2" the second, ...
+func anchorKeys(when, name string, n int) []string {
+	if n == 1 {
+		return []string{when + ":" + name, when + ":" + name + "#1"}
+	}
+	return []string{fmt.Sprintf("%s:%s#%d", when, name, n)}
 }
 
 // definedNames: variables a top-level statement defines or assigns (for anchoring asserts).
@@ -523,7 +533,7 @@ func (fc *FCtx) dryRunGhosts(st *State, body func(s *State) []*State) (changed m
 	cacheN := fc.cacheN
 	mayPanic, recoverLit := fc.mayPanic, fc.recoverLit
 	guards := append([]string(nil), fc.guards...)
-	seenDef, anchored := map[string]bool{}, map[string]bool{}
+	seenDef, anchored := map[string]int{}, map[string]bool{}
 	for k, v := range fc.seenDef {
 		seenDef[k] = v
 	}
@@ -948,7 +958,10 @@ func (fc *FCtx) execRange(s *ast.RangeStmt, st *State, label string) *Flow {
 					}
 				}
 			}
+			prevSp := fc.curSpecials
+			fc.curSpecials = loopSpecials{"#i": Val{T: fc.U.Fresh("dry_i", SInt), S: SInt}, "#n": Val{T: n, S: SInt}, "#coll": coll}
 			f := fc.execBlock(s.Body.List, d)
+			fc.curSpecials = prevSp
 			ends := append([]*State{}, f.normal...)
 			for _, v := range f.cont {
 				ends = append(ends, v...)
@@ -1032,7 +1045,11 @@ func (fc *FCtx) execRange(s *ast.RangeStmt, st *State, label string) *Flow {
 		ev := Val{T: fmt.Sprintf("(select %s %s)", slEl(coll), gi), S: coll.S.Elem, GoT: et}
 		bind(s.Value, ev)
 	}
+	// asserts anchored inside the body may use the loop specials (#i, #coll, ...) of the innermost range loop
+	prevSp := fc.curSpecials
+	fc.curSpecials = sp
 	fb := fc.execBlock(s.Body.List, b)
+	fc.curSpecials = prevSp
 	ends := append([]*State{}, fb.normal...)
 	ends = append(ends, fb.cont[""]...)
 	delete(fb.cont, "")
